@@ -42,7 +42,9 @@ func startLookupd() (*lookupdInst, error) {
 	opts.TCPAddress = "127.0.0.1:0"
 	opts.HTTPAddress = "127.0.0.1:0"
 	opts.BroadcastAddress = "127.0.0.1"
+	portMu.Lock()
 	d, err := nsqlookupd.New(opts)
+	portMu.Unlock()
 	if err != nil {
 		return nil, err
 	}
@@ -75,7 +77,9 @@ type proxy struct {
 }
 
 func newProxy() (*proxy, error) {
+	portMu.Lock()
 	ln, err := net.Listen("tcp", "127.0.0.1:0")
+	portMu.Unlock()
 	if err != nil {
 		return nil, err
 	}
@@ -103,7 +107,7 @@ func (p *proxy) refuseFor(d time.Duration) {
 	ln.Close()
 	p.dropConns()
 	time.Sleep(d)
-	for i := 0; i < 200; i++ {
+	for i := 0; i < 1000; i++ {
 		nl, err := net.Listen("tcp", p.addr)
 		if err == nil {
 			p.mu.Lock()
@@ -273,7 +277,9 @@ type httpGate struct {
 }
 
 func newHTTPGate(target string) (*httpGate, error) {
+	portMu.Lock()
 	ln, err := net.Listen("tcp", "127.0.0.1:0")
+	portMu.Unlock()
 	if err != nil {
 		return nil, err
 	}
@@ -342,25 +348,37 @@ type nsqdProc struct {
 	mu     sync.Mutex
 }
 
-func freePort() string {
-	ln, err := net.Listen("tcp", "127.0.0.1:0")
+// portMu serialises "pick a free port ... until the subprocess has bound it" against every
+// other listener this process opens, so that a port found free is still free when nsqd binds it
+var portMu sync.Mutex
+
+func freePorts() (string, string) {
+	l1, err := net.Listen("tcp", "127.0.0.1:0")
 	if err != nil {
 		lib_fatal("free port: %v", err)
 	}
-	a := ln.Addr().String()
-	ln.Close()
-	return a
+	l2, err := net.Listen("tcp", "127.0.0.1:0")
+	if err != nil {
+		lib_fatal("free port: %v", err)
+	}
+	a, b := l1.Addr().String(), l2.Addr().String()
+	l1.Close()
+	l2.Close()
+	return a, b
 }
 
 func startNsqd(scratch string, lookupds []string, heartbeat time.Duration) (*nsqdProc, error) {
 	bin := filepath.Join(os.Getenv("VERIF_BIN_DIR"), "nsqd")
 	var lastErr error
-	for attempt := 0; attempt < 4; attempt++ {
+	portMu.Lock()
+	defer portMu.Unlock()
+	for attempt := 0; attempt < 6; attempt++ {
 		dir, err := os.MkdirTemp(scratch, "nsqd-")
 		if err != nil {
 			return nil, err
 		}
-		n := &nsqdProc{tcp: freePort(), http: freePort(), dir: dir, exited: make(chan struct{}), stderr: &bytes.Buffer{}}
+		pt, ph := freePorts()
+		n := &nsqdProc{tcp: pt, http: ph, dir: dir, exited: make(chan struct{}), stderr: &bytes.Buffer{}}
 		args := []string{"-tcp-address", n.tcp, "-http-address", n.http, "-data-path", dir,
 			"-broadcast-address", "127.0.0.1", "-log-level", "error", "-mem-queue-size", "100"}
 		for _, l := range lookupds {
